@@ -60,6 +60,15 @@ Theorem C09_after : forall cfgv st now before after,
 Proof. exact after_exit_off. Qed.
 Print Assumptions C09_after.
 
+(* a later block entered in the bare form (no wait_nrc argument) does not inherit the previous block's wait_nrc: it is on and
+   not waiting, whatever ran in between *)
+Theorem C09_bare_block_not_waiting : forall cfgv st now before mid inside,
+  forallb no_spr_op mid = true -> forallb no_spr_op inside = true ->
+  let st' := state_after cfgv st now (before ++ OSprExit :: mid ++ OSprEnter None :: inside) in
+  spr_on st' = true /\ spr_wait st' = None.
+Proof. exact bare_block_not_waiting. Qed.
+Print Assumptions C09_bare_block_not_waiting.
+
 Theorem C09_calls_keep_flags : forall cfg st c now s,
   let '(_, st', _, _, _) := run_inner cfg st c now s in flags_of st' = flags_of st.
 Proof. exact run_inner_flags. Qed.
